@@ -295,6 +295,13 @@ pub fn utc_from_timespec(t: i64, ns: u32) -> Result<UtcDateTime, E> {
 }
 
 #[inline]
+pub fn utc_from_total_ns(n: i128) -> Result<UtcDateTime, E> {
+    let r = UtcDateTime::from_total_nanoseconds(n).map_err(|e| tz_err(&e));
+    ev("UtcDateTime::from_total_nanoseconds", [(n >> 64) as i64, n as i64, 0, 0], r.is_ok(), 0);
+    r
+}
+
+#[inline]
 pub fn utc_new(y: i32, mo: u8, d: u8, h: u8, mi: u8, s: u8, ns: u32) -> Result<UtcDateTime, E> {
     let r = UtcDateTime::new(y, mo, d, h, mi, s, ns).map_err(|e| tz_err(&e));
     ev("UtcDateTime::new", [y as i64, (mo as i64) << 8 | d as i64, (h as i64) << 16 | (mi as i64) << 8 | s as i64, ns as i64], r.is_ok(), 0);
